@@ -271,6 +271,119 @@ def n2(prog, ctx):
     ctx.floor("N2", "filter-loop paths", n, 12)
 
 
+def n4(prog, ctx):
+    """Evidence for every intron of a model: the intron chains that become models are read (or isoform) intron chains after
+    substitution by the graph's representative introns; the substitution must not make two neighbouring introns touch or overlap,
+    otherwise the exon between them disappears and the model carries one merged intron that no read has."""
+    from ..engine import taint, linform
+    f = prog.func(GMC, "IntronPathProcessor.thread_introns")
+    loops = [l for l in walk_no_nested(f) if isinstance(l, ast.For)]
+    if len(loops) != 1:
+        raise AnalysisError("thread_introns: expected one loop over the introns of a chain")
+    loop = loops[0]
+    appends = [c for c in walk_no_nested(loop) if isinstance(c, ast.Call) and isinstance(c.func, ast.Attribute) and c.func.attr == "append"
+               and len(c.args) == 1]
+    if not appends:
+        raise AnalysisError("thread_introns: no <path>.append(<intron>) in the loop")
+    n = 0
+    for c in appends:
+        n += 1
+        seq = src(c.func.value)
+        new = c.args[0]
+        env = {a.targets[0].id: a.value for a in walk_no_nested(loop) if isinstance(a, ast.Assign) and len(a.targets) == 1
+               and isinstance(a.targets[0], ast.Name)}
+        new_t = src(new)
+        ordered_on_all = True
+        why = None
+        st = c
+        while not isinstance(st, ast.stmt):
+            st = st._parent
+        guards = [g for g in flow.guards_of(st, stop=loop)]
+        # guard clauses of the loop body that precede the append (if <cond>: return/continue) hold negated at the append
+        facts = [(g.test, g.polarity) for g in guards]
+        for prev in loop.body:
+            if prev is st or (hasattr(prev, "lineno") and prev.lineno >= st.lineno):
+                break
+            if isinstance(prev, ast.If) and not prev.orelse and flow.always_exits(prev.body):
+                facts.append((prev.test, False))
+        alts = [[]]
+        for t, pol in facts:
+            d = flow.dnf(t, pol)
+            alts = [a + b for a in alts for b in d]
+        if not facts:
+            ordered_on_all, why = False, "nothing is tested before the substituted intron is appended"
+        for alt in alts:
+            ok = False
+            for atom, pol in alt:
+                at = src(atom)
+                if at == seq and not pol:
+                    ok = True                       # the chain is still empty: first intron
+                if isinstance(atom, ast.Compare) and len(atom.ops) == 1 and len(atom.comparators) == 1:
+                    l, r, op = atom.left, atom.comparators[0], type(atom.ops[0])
+                    if not pol:
+                        op = {ast.Lt: ast.GtE, ast.LtE: ast.Gt, ast.Gt: ast.LtE, ast.GtE: ast.Lt}.get(op, None)
+                    if op is None:
+                        continue
+                    d = dict(linform.linform(l))
+                    for k, v in linform.linform(r).items():
+                        d[k] = d.get(k, 0) - v
+                    d = {k: v for k, v in d.items() if v}
+                    start_keys = {new_t + "[0]"} | ({src(env[new.id]) + "[0]"} if isinstance(new, ast.Name) and new.id in env else set())
+                    prev_key = seq + "[-1][1]"
+                    ks = set(d) - {"1"}
+                    sk = ks & start_keys
+                    if len(ks) == 2 and len(sk) == 1 and prev_key in ks:
+                        a, b, c0 = d[next(iter(sk))], d[prev_key], d.get("1", 0)
+                        # a*start + b*prev + c0 (op) 0
+                        if a == 1 and b == -1:
+                            # start - prev + c0 > 0  => start - prev >= 1 - c0 ;  >= 0 => start - prev >= -c0
+                            gap = (1 - c0) if op is ast.Gt else (-c0 if op is ast.GtE else None)
+                        elif a == -1 and b == 1:
+                            # prev - start + c0 < 0 => start - prev >= c0 + 1 ; <= 0 => start - prev >= c0
+                            gap = (c0 + 1) if op is ast.Lt else (c0 if op is ast.LtE else None)
+                        else:
+                            gap = None
+                        if gap is not None and gap >= 2:
+                            ok = True
+            if not ok:
+                ordered_on_all = False
+                why = why or "on the branch {%s} nothing implies start of the new intron >= end of the previous one + 2" % \
+                    "; ".join(("" if p_ else "not ") + src(a_)[:50] for a_, p_ in alt)
+        if ordered_on_all:
+            ctx.ok("N4", "%s:%d" % (GMC, c.lineno), "thread_introns appends a substituted intron only when it starts at least 2 bases after the "
+                   "previous one ends (an exon remains between them)")
+        else:
+            ctx.fail("N4", c, f._qualname, src(st)[:90],
+                     "a read's intron chain is rewritten intron by intron to the graph's representative introns and appended unchecked (%s): "
+                     "when a micro-exon shorter than the clustering distance separates two introns, the representative of the first can "
+                     "reach beyond the start of the second, get_exons drops the exon between them and the reported model contains a merged "
+                     "intron that is present in no read" % why)
+    # every chain stored as a candidate path comes out of thread_introns
+    g = prog.func(GMC, "IntronPathStorage.fill")
+    stores = 0
+    for pth in flow.paths(g):
+        env = taint.run(pth, {})
+        for st in pth.stmts():
+            keys = []
+            if isinstance(st, ast.AugAssign) and isinstance(st.target, ast.Subscript) and src(st.target.value).startswith("self."):
+                keys.append(st.target.slice)
+            elif isinstance(st, ast.Expr) and isinstance(st.value, ast.Call) and isinstance(st.value.func, ast.Attribute) \
+                    and st.value.func.attr in ("add", "append") and src(st.value.func.value).startswith("self."):
+                recv = st.value.func.value
+                keys.append(recv.slice if isinstance(recv, ast.Subscript) else (st.value.args[0] if st.value.args else None))
+            for k in keys:
+                if k is None:
+                    continue
+                stores += 1
+                if "call:thread_introns" not in taint.influence(k, env):
+                    ctx.fail("N4", st, g._qualname, src(st)[:90], "a candidate path is stored whose intron chain does not come from thread_introns "
+                             "(the only place where substituted chains are checked)")
+    if stores:
+        ctx.ok("N4", "%s:%d" % (GMC, g.lineno), "IntronPathStorage.fill: %d path stores (over all paths), all keyed by the result of thread_introns" % stores)
+    ctx.floor("N4", "appends in thread_introns", n, 1)
+    ctx.floor("N4", "path stores in IntronPathStorage.fill", stores, 3)
+
+
 def run(prog, ctx):
     ctx.rule("N1", "for every novel TranscriptModel construction the id suffix and the model type are assigned together and pair "
                    "nic<->novel_in_catalog / nnic<->novel_not_in_catalog; the nic branch is exactly the positive branch of a subset "
@@ -281,4 +394,8 @@ def run(prog, ctx):
                    "to delete_from_storage (which deletes its read list, the only source of transcript_model_reads)")
     n1(prog, ctx)
     n2(prog, ctx)
-    ctx.assume("intron support in corrected reads, >= 1 supporting read, definite strand and chain uniqueness are runtime/graph-valued and not decided")
+    ctx.rule("N4", "evidence clause, structural part: IntronPathProcessor.thread_introns appends a substituted intron only under a guard "
+                   "that implies (linear form) its start >= previous end + 2, or while the chain is empty; every candidate path stored "
+                   "by IntronPathStorage.fill is keyed by the result of thread_introns (influence propagation)")
+    n4(prog, ctx)
+    ctx.assume("intron support of the individual representative introns, >= 1 supporting read, definite strand and chain uniqueness are runtime/graph-valued and not decided")
